@@ -3,7 +3,7 @@
    Model: Model/Ty.v (tord = typeorder with fuel; [Some r] = answered).  Domain predicate: Model/TyDom.v (msym). *)
 From Coq Require Import ZArith List Bool Arith.
 Import ListNotations.
-From OvldV Require Import Model.Order Model.Ty Model.TyDom Model.Codec Proofs.TyEq Proofs.TyMono Proofs.TyOrder Gen.Leaf Proofs.LeafAgree Proofs.TyTotal.
+From OvldV Require Import Model.Order Model.Ty Model.TyDom Model.Codec Proofs.TyEq Proofs.TyMono Proofs.TyOrder Gen.Leaf Proofs.LeafOrder Proofs.TyTotal.
 
 Definition Antisym (sub : nat -> nat -> bool) := forall c d, sub c d = true -> sub d c = true -> c = d.
 Definition Trans (sub : nat -> nat -> bool) := forall a b c, sub a b = true -> sub b c = true -> sub a c = true.
